@@ -174,9 +174,30 @@ def dimension_analysis(body):
         if o["k"] in ("copy", "move"):
             return set(tags.get(o["place"]["l"], set()))
         return set()
+    # calls that hand their argument's payload on (wrapper-transparent): `?` on an Option (Try::branch / from_residual / from_output),
+    # unwrap / expect / unwrap_or, clone / copied / cloned, From / Into between usize and itself
+    TRANSPARENT = ("::branch", "::from_output", "::from_residual", "::unwrap", "::expect", "::unwrap_or", "::unwrap_or_default", "::clone", "::copied", "::cloned", "::into", "::from", "::as_ref")
+    call_edges = []
+    for b in body["blocks"]:
+        t = b["term"]
+        if t["k"] == "call":
+            ci = callee_info(t)
+            nm = (ci.get("resolved") or ci["def"]) if ci else "?"
+            if nm.endswith(TRANSPARENT) or (ci and ci["def"].endswith(TRANSPARENT)):
+                call_edges.append((t["dest"]["l"], [a["place"]["l"] for a in t["args"] if a["k"] in ("move", "copy")]))
     changed = True
     while changed:
         changed = False
+        for dl, srcs in call_edges:
+            if dl in counters:
+                continue
+            new = set()
+            for sl in srcs:
+                new |= set(tags.get(sl, set()))
+            cur = tags.setdefault(dl, set())
+            if not new <= cur:
+                cur |= new
+                changed = True
         for s in assigns:
             l = s["lhs"]["l"]
             if l in counters:
